@@ -101,6 +101,25 @@ def gapped_pairs(rng: random.Random, nbins: Optional[int] = None) -> List[List[f
     return ok
 
 
+def tiny_gapped_pairs(rng: random.Random, nbins: Optional[int] = None) -> List[List[float]]:
+    """Rising bins with real gaps that are tiny relative to the edge magnitude (far below numpy's allclose tolerance):
+    epoch-like offsets with gaps of a few units, or gaps of a few ulps. Exact comparisons still call them gaps."""
+    n = nbins or rng.randint(2, 6)
+    off = rng.choice([1e6, 1.7e9, 3e7, 1.0, 100.0])
+    w = rng.choice([1.0, 0.5, 10.0])
+    pairs = []
+    x = off
+    for i in range(n):
+        pairs.append([x, x + w])
+        gap = rng.choice([0.0, w * 1e-3, float(np.spacing(x + w)) * rng.choice([1, 4, 64]), w * 0.25])
+        x = x + w + gap
+        if not x > pairs[-1][1] and gap:
+            x = float(np.nextafter(pairs[-1][1], np.inf))
+    if is_consecutive_pairs(pairs):
+        pairs[-1][0] = float(np.nextafter(pairs[-1][0], np.inf)) if len(pairs) > 1 else pairs[-1][0]
+    return pairs
+
+
 def is_consecutive_pairs(pairs) -> bool:
     return all(pairs[i][1] == pairs[i + 1][0] for i in range(len(pairs) - 1))
 
